@@ -225,7 +225,9 @@ def run_tlc(
     if violated is None and (p.returncode != 0 or not finished or "Error:" in out):
         if not keep:
             shutil.rmtree(meta, ignore_errors=True)
-        raise MachineryError(f"TLC failed on {module} (rc={p.returncode}):\n{out[-3000:]}")
+        err = MachineryError(f"TLC failed on {module} (rc={p.returncode}):\n{_error_excerpt(out)}")
+        err.out = out
+        raise err
     if not keep:
         shutil.rmtree(meta, ignore_errors=True)
     return TlcResult(
@@ -240,6 +242,13 @@ def run_tlc(
         coverage=cov,
         workdir=workdir,
     )
+
+
+def _error_excerpt(out: str) -> str:
+    i = out.find("Error:")
+    if i < 0:
+        return out[-3000:]
+    return out[max(0, i - 200) : i + 2500]
 
 
 def cleanup(workdir: str) -> None:
